@@ -18,14 +18,18 @@ def make(i, seed):
     lb, ub = np.full(D, -20.0), np.full(D, 20.0)
     if stratum(i) == "wide":        # a generous plausible box: the family fixes the minimiser, not the width of the box
         plb, pub, lb, ub = np.full(D, -50.0), np.full(D, 50.0), np.full(D, -200.0), np.full(D, 200.0)
+    elif stratum(i) == "unbounded":   # no hard bounds at all
+        lb, ub = np.full(D, -np.inf), np.full(D, np.inf)
+    elif stratum(i) == "huge":        # huge finite hard bounds used as "no bound"
+        lb, ub = np.full(D, -1.0e15), np.full(D, 1.0e15)
     x0 = rs.uniform(plb, pub)
     return D, A, xstar, x0, lb, ub, plb, pub
 
 
 def stratum(i):
     """standard: f* = 0, plausible box [-5,5]^D;  offset: the same with a minimum VALUE far from zero (either sign);
-    wide: plausible box [-50,50]^D."""
-    return ("standard", "offset", "standard", "wide")[(i // 5) % 4]
+    wide: plausible box [-50,50]^D;  unbounded: no hard bounds;  huge: hard bounds +-1e15."""
+    return ("standard", "offset", "standard", "wide", "unbounded", "huge")[(i // 5) % 6]
 
 
 def offset_of(i, seed):
